@@ -15,22 +15,18 @@ TREE_MISC = [('src/regex_radix_tree/leaf.rs', r'.* / fn (clone|get_mut|cached_le
 LAYER_CACHE = [('src/router/request_matcher/%s.rs' % l, r'impl <T>\w+<T> / fn cache') for l in LAYERS]
 ROUTER_CTOR = [('src/router/mod.rs', r'.* / fn (default|from_config|routes)')]
 CURATED = {
-    'C01': ROUTER_CTOR + [('src/router/route_weekday.rs', r'impl PartialOrdforWeekdays / fn partial_cmp')],
-    'C02': ROUTER_CTOR + LAYER_CACHE + TREE_MISC + [('src/api/rules_message.rs', r'impl RuleChangeSet / fn is_empty')],
+    'C01': [('src/router/route_weekday.rs', r'impl PartialOrdforWeekdays / fn partial_cmp')],
+    'C02': TREE_MISC + [('src/api/rules_message.rs', r'impl RuleChangeSet / fn is_empty')],
     'C08': TREE_MISC,
-    'C12': LAYER_CACHE + [('src/regex_radix_tree/%s.rs' % f, r'.* / fn (cached_len|clone)') for f in ('leaf', 'node', 'item', 'tree')]
+    'C12': [('src/regex_radix_tree/%s.rs' % f, r'.* / fn (cached_len|clone)') for f in ('leaf', 'node', 'item', 'tree')]
            + [('src/marker/mod.rs', r'impl (MarkerString|StaticOrDynamic) / fn (compile|capture)'), ('src/router/route.rs', r'impl <T>Route<T> / fn (compile|capture)')],
-    'C11': [('src/router/route.rs', r'impl <T>(PartialEq|PartialOrd|Ord)forRoute<T>.* / fn (eq|partial_cmp|cmp)')],
-    'C04': [('src/filter/html_body_action/body_%s.rs' % a, r'impl Body\w+ / fn new') for a in ('append', 'prepend', 'replace')],
-    'C15': [('src/filter/html_body_action/body_%s.rs' % a, r'impl Body\w+ / fn new') for a in ('append', 'prepend', 'replace')],
     'C16': [('src/html/mod.rs', r'impl Token / fn tag_string')],
     'C05': [('src/action/mod.rs', r'impl Action / fn get_target')],
     'C19': [('src/action/mod.rs', r'impl (UnitTrace|WithTargetUnitTrace) / fn \w+'), ('src/api/explain_request.rs', r'.* / fn create_result_(from|without)_project'),
             ('src/api/test_examples.rs', r'.* / fn \w+'), ('src/api/unit_ids.rs', r'.* / fn \w+'), ('src/api/rules_message.rs', r'impl RuleChangeSet / fn is_empty')],
     'C09': [('src/http/request.rs', r'impl Request / fn new'), ('src/http/request.rs', r'impl FromStrforRequest / fn from_str'),
             ('src/router_config.rs', r'.*fn (default|default_as_false|default_marketing_parameters|hash)')],
-    'C10': [('src/marker/transformer/%s.rs' % t, r'.* / fn transform') for t in ('camelize', 'dasherize', 'lowercase', 'replace', 'underscorize', 'uppercase')]
-           + [('src/marker/mod.rs', r'impl Marker / fn (new|format)'), ('src/marker/mod.rs', r'impl StaticOrDynamic / fn compile')],
+    'C10': [('src/marker/mod.rs', r'impl Marker / fn (new|format)'), ('src/marker/mod.rs', r'impl StaticOrDynamic / fn compile')],
     'C14': [('src/filter/encoding/mod.rs', r'impl SupportedEncoding / fn new_hash_set')],
     'C17': [('src/router/request_matcher/header.rs', r'impl ValueCondition / fn format')],
     'C18': [('src/callback_log.rs', r'.*fn \w+')],
